@@ -15,7 +15,8 @@
      - the only bytes that changed lie inside that range (so no guard byte changed),
      - the source region of a copy is unchanged and the copied bytes come from the requested source range.
    A crash (Crash) or anything else is a failure.  The predicate does not mention the model's accessors. *)
-Require Import V.Base.MachineInt V.Model.Buffer.
+Require Import V.Base.MachineInt.
+Require Import V.Model.Buffer.
 Open Scope Z_scope.
 
 Fixpoint list_eqb (a b : list Z) : bool :=
